@@ -162,8 +162,8 @@ VocabOf(v) ==
                         RefOp("ldlit", "b", 4),
                         JmpOff("a"), JccOff("x"), CallOff("b")>>
     \* symbol-attribute directives against labels, module symbols, unknown names and uses
-    [] v = "attr"  -> <<Op, Label("g"), Label("a"), Attr("g", 0), Attr("g", 1), Attr("g", 2), Attr("g", 3),
-                        Attr("u", 0), Attr("a", 2), Attr("b", 1), Call("a"), Jmp("u"), Quad("u", 0), Jmp("g")>>
+    [] v = "attr"  -> <<Op, Label("g"), Attr("g", 0), Attr("g", 1), Attr("g", 2), Attr("g", 3),
+                        Attr("u", 0), Attr("u", 2), Attr("a", 2), Attr("b", 1), Jmp("u"), Jmp("g")>>
     [] v = "mini"  -> <<Op, Jmp("x"), Label("x"), Byte(1), Ret>>
 Vocab == VocabOf(VocabName)
 
@@ -1051,6 +1051,7 @@ EmitAlignment == Emitting({"align"})
 DoChangeSection == Emitting({"sec"})
 EmitCfi == Emitting(CfiKinds)
 EmitAssignment == Emitting({"assign"})
+EmitSymbolAttribute == Emitting({"attr"})
 ChunkDone ==
   /\ ph = "stream" /\ (inp = <<>> \/ st.err # "")
   /\ st' = IF st.err # "" THEN st ELSE EndChunk(st, par)
@@ -1063,7 +1064,7 @@ DoFinalize ==
   /\ UNCHANGED <<par, prog, inp, st>>
 
 Next == \/ Assemble \/ EmitLabel \/ EmitInsnPlain \/ EmitInsnDirect \/ EmitInsnRet \/ EmitInsnIndirect
-        \/ EmitBytes \/ EmitValue \/ EmitEncoded \/ EmitAlignment \/ DoChangeSection \/ EmitCfi \/ EmitAssignment
+        \/ EmitBytes \/ EmitValue \/ EmitEncoded \/ EmitAlignment \/ DoChangeSection \/ EmitCfi \/ EmitAssignment \/ EmitSymbolAttribute
         \/ ChunkDone \/ DoFinalize
 Spec == Init /\ [][Next]_vars
 
